@@ -139,6 +139,18 @@ def oracle(ctx):
             if len(s) <= 2:
                 check_cats(ctx, [s, 'k'])
                 check_cats(ctx, [s])
+    # pure-ASCII values whose escape sequences slide across every fold alignment of the property line
+    for k in range(40, 170):
+        for special in ('\n', ',', ';', '\\', '\\n'):
+            s = 'a' * k + special + 'b' * 9
+            ctx.evaluated(('slide', k, special))
+            check_property(ctx, s)
+            if k % 7 == 0:
+                check_cats(ctx, [s, 'k' * 70 + special])
+    for _ in range(ctx.vol(300)):
+        s = ''.join(ctx.rng.choice('ab\\,;n:\n ') for _ in range(ctx.rng.randint(50, 260)))
+        ctx.evaluated(('ascii', s))
+        check_property(ctx, s)
     for _ in range(ctx.vol(1500)):
         s = gen.rand_text(ctx.rng)
         if has_surrogate(s):
